@@ -352,7 +352,14 @@ def dispatch(ctx, case):
 
 def corpus():
     pol = "b0" * 28
+    import json as _json
+    import os as _os
+    _f = _os.path.join(_os.path.dirname(_os.path.dirname(_os.path.abspath(__file__))), "corpus", "c08-merge-split.json")
     return [
+        # merge_change WITH an output at the change address, but the change comes out split over several outputs (nothing is
+        # merged): found by the thorough tier; the last change output held less than its minimum ADA (repaired: recomputed
+        # with the requirement, here the builder now refuses)
+        {"kind": "build", "sc": _json.load(open(_f))},
         # merge_change with a bundle needing several change outputs and little ADA (was: negative change output returned)
         {"kind": "build", "sc": {"params": {"max_val_size": 150}, "utxos": [{"id": "u0", "txid": "11" * 32, "ix": 0, "addr": "k0", "coin": 2_500_000,
                                  "assets": [[pol[:54] + f"{i % 3:02x}", f"{i:02x}" * 8, "5"] for i in range(18)]}],
